@@ -53,6 +53,12 @@ type Profile struct {
 	MaxDepth    int         `json:"max_depth"`
 	/* LinePayload, if set, is appended to every entered line. */
 	LinePayload string `json:"line_payload"`
+	/* GateAdmitted also parks every admitted stream right after the
+	admission section was left (before its proxy starts) until a "proceed"
+	event: the window between "attached" and "running". */
+	GateAdmitted bool `json:"gate_admitted"`
+	/* ViaChanWriter enters lines through opshell.ChanWriter, as Ctrl+I does. */
+	ViaChanWriter bool `json:"via_chanwriter"`
 	/* JSONLog also sends every record through a real slog JSON handler. */
 	JSONLog bool `json:"json_log"`
 }
@@ -82,7 +88,7 @@ func (e Event) String() string {
 	switch e.Op {
 	case "start":
 		return fmt.Sprintf("start(spec%d)", e.Spec)
-	case "admit", "release":
+	case "admit", "release", "proceed":
 		return fmt.Sprintf("%s(a%d,%s)", e.Op, e.A, e.Dir)
 	case "out", "outcancel":
 		return fmt.Sprintf("%s(a%d,o%d)", e.Op, e.A, e.Arg)
@@ -100,16 +106,17 @@ func (e Event) String() string {
 type halfState int
 
 const (
-	hNone        halfState = iota /* Not arrived at the admit gate yet. */
-	hParkAdmit                    /* Parked in front of the admission section. */
-	hInAdmission                  /* Gate opened; neither attached nor finished yet. */
-	hAttached                     /* Admitted, proxy running. */
-	hParkRelease                  /* Proxy ended, parked in front of the release section. */
-	hReleasing                    /* Release gate opened, not finished yet. */
-	hDone                         /* connect returned. */
+	hNone         halfState = iota /* Not arrived at the admit gate yet. */
+	hParkAdmit                     /* Parked in front of the admission section. */
+	hInAdmission                   /* Gate opened; neither attached nor finished yet. */
+	hParkAdmitted                  /* Admitted, parked before the proxy starts (GateAdmitted). */
+	hAttached                      /* Admitted, proxy running. */
+	hParkRelease                   /* Proxy ended, parked in front of the release section. */
+	hReleasing                     /* Release gate opened, not finished yet. */
+	hDone                          /* connect returned. */
 )
 
-var halfStateNames = [...]string{"none", "park-admit", "in-admission", "attached", "park-release", "releasing", "done"}
+var halfStateNames = [...]string{"none", "park-admit", "in-admission", "park-admitted", "attached", "park-release", "releasing", "done"}
 
 type half struct {
 	a            *attempt
@@ -267,6 +274,9 @@ func hook(ctx context.Context, point, dir, key string) {
 		h.st = hParkAdmit
 	case "admitted":
 		h.st = hAttached
+		if w.P.GateAdmitted && !free {
+			h.st = hParkAdmitted
+		}
 		h.everAttached = true
 	case "release":
 		h.st = hParkRelease
@@ -275,8 +285,13 @@ func hook(ctx context.Context, point, dir, key string) {
 	}
 	gate := h.gate
 	w.mu.Unlock()
-	if ("admit" == point || "release" == point) && !free {
+	if ("admit" == point || "release" == point || ("admitted" == point && w.P.GateAdmitted)) && !free {
 		<-gate
+		if "admitted" == point {
+			w.mu.Lock()
+			h.st = hAttached
+			w.mu.Unlock()
+		}
 	}
 }
 
@@ -334,6 +349,11 @@ func (w *World) Enabled() []Event {
 					continue
 				}
 				evs = append(evs, Event{Op: "admit", A: a.id, Dir: h.dir})
+			case hParkAdmitted:
+				if "input" == h.dir && a.cancelled && len(w.ich) > 0 {
+					continue /* Same two-ready-cases corner as above. */
+				}
+				evs = append(evs, Event{Op: "proceed", A: a.id, Dir: h.dir})
 			case hParkRelease:
 				evs = append(evs, Event{Op: "release", A: a.id, Dir: h.dir})
 			}
@@ -406,6 +426,9 @@ func (w *World) Do(e Event) *Step {
 		h.st = hInAdmission
 		w.mu.Unlock()
 		h.gate <- struct{}{}
+	case "proceed":
+		h := w.attempts[e.A].halves[e.Dir]
+		h.gate <- struct{}{}
 	case "release":
 		h := w.attempts[e.A].halves[e.Dir]
 		w.m.release(w, h)
@@ -417,7 +440,14 @@ func (w *World) Do(e Event) *Step {
 		l := fmt.Sprintf("L%d%s", w.linesEntered, w.P.LinePayload)
 		w.linesEntered++
 		w.entered = append(w.entered, l)
-		w.ich <- l
+		if w.P.ViaChanWriter {
+			/* The way Ctrl+I enters its payload. */
+			if n, err := opshell.ChanWriter(w.ich).Write([]byte(l)); nil != err || n != len(l) {
+				w.viol("C02", "chanwriter-short-write", fmt.Sprintf("ChanWriter.Write returned %d, %v for %d bytes", n, err, len(l)))
+			}
+		} else {
+			w.ich <- l
+		}
 	case "linecancel":
 		a := w.attempts[e.A]
 		l := fmt.Sprintf("L%d%s", w.linesEntered, w.P.LinePayload)
